@@ -213,7 +213,7 @@ def run(res, tier, seed, shard, nshards):
                 if (i + shard) % nshards == 0:
                     reuse_case(res, W, rng, ks)
 
-    with H.ambient((seed, shard, "C01"), res, dims=("multithread", "tls", "dispatcher", "high_fd")):
+    with H.ambient((seed, shard, "C01"), res, dims=("multithread", "tls", "dispatcher", "high_fd", "warn_error", "thread_hop", "truthy")):
         H.in_sim(scen, watchdog=3000)
     W.enableTrace(False)
 
